@@ -218,6 +218,37 @@ class Gen:
             slist = [(s, rng.uniform(0, 10)) for s in m['States']]
         return self.finish(m['Name'], plist, ilist, slist, kind, wild)
 
+    def large(self, m, size, kind='large'):
+        """a request for model m whose JSON text is EXACTLY [size] bytes: all inputs supplied as long series of
+        full-precision values (as many time steps as fit), in-range parameters, and the remainder made up with
+        insignificant spaces after the opening brace.  Returns the case with its decoded form."""
+        import bisect, itertools
+        rng = self.rng
+        ps = m['Parameters'] or []
+        plist = [(p['Name'], self.pvalue(m['Name'], p)) for p in ps]
+        names = list(m['Inputs'])
+        rng.shuffle(names)
+        head = '{"Name": %s, "Parameters": %s, "Inputs": [' % (
+            json.dumps(m['Name']), json.dumps([{'Name': n, 'Value': v} for n, v in plist]))
+        frames = ['{"Name": %s, "Values": [' % json.dumps(n) for n in names]
+        base = len(head) + sum(len(f) + 2 for f in frames) + 2 * (len(names) - 1) + 2
+        nmax = max(1, (size - base) // (len(names) * 16) + 2)
+        vals = [[rng.choice([rng.uniform(0, 50), rng.uniform(0, 5), rng.random()]) for _ in range(nmax)] for _ in names]
+        reprs = [[repr(x) for x in v] for v in vals]
+        step_cost = [sum(len(r[t]) + 2 for r in reprs) for t in range(nmax)]
+        cum = list(itertools.accumulate(step_cost))
+        # total(n) = base + cum[n-1] - 2*len(names)   (no separator after the last value of each series)
+        n = bisect.bisect_right(cum, size - base + 2 * len(names))
+        if n == 0:
+            n, pad = 1, 0
+        body = ', '.join(f + ', '.join(r[:n]) + ']}' for f, r in zip(frames, reprs))
+        text = head + body + ']}'
+        pad = max(0, size - len(text))
+        text = '{' + ' ' * pad + text[1:]
+        return {'model': m['Name'], 'kind': kind, 'wild': False, 'params': plist,
+                'inputs': [[nm, v[:n]] for nm, v in zip(names, vals)], 'states': [], 'text': text,
+                'split': rng.choice([0, 1]), 'large': True, 'steps': n}
+
     def finish(self, name, plist, ilist, slist, kind, wild=False):
         rng = self.rng
         doc = {}
@@ -551,16 +582,65 @@ def main():
     for m in desc:
         for _ in range(2 if quick else 25):
             cases.append(g.structured(m, wild=True, force=rng.choice(['full', 'subset'])))
+    # large-request stream: the property holds for ANY series length, so requests whose text is just below / at /
+    # just above 64 KiB, 1 MiB, 4 MiB (thorough: more sizes up to 16 MiB+) -- long full-precision series for
+    # models with 1, 2, 5 and 8 inputs -- are answered and compared with the direct run like every other request;
+    # also with trailing whitespace and with a second document after the request (Decode reads one value)
+    KiB, MiB = 1 << 10, 1 << 20
+    big_models = [by_name[n] for n in ('ApplyScalingFactor', 'EmcDwc', 'Muskingum', 'ConstituentDecay',
+                                       'InstreamParticulateNutrient') if n in by_name]
+    rng.shuffle(big_models)
+    plan = [(64 * KiB, -1, 'plain'), (64 * KiB, +1, 'plain'), (MiB, -1, 'plain'), (MiB, 0, 'plain'), (MiB, +1, 'plain'),
+            (MiB, -1, 'trailing-ws'), (MiB, +1, 'second-doc'), (4 * MiB, -1, 'plain'), (4 * MiB, +1, 'plain')]
+    if not quick:
+        plan += [(128 * KiB, +1, 'plain'), (256 * KiB, -1, 'second-doc'), (512 * KiB, +1, 'trailing-ws'), (2 * MiB, +1, 'plain'),
+                 (3 * MiB, 0, 'plain'), (4 * MiB, +1, 'second-doc'), (8 * MiB, -1, 'plain'), (8 * MiB, +1, 'trailing-ws'),
+                 (16 * MiB, -1, 'plain'), (16 * MiB, +1, 'plain'), (rng.randint(5 * MiB, 20 * MiB), 0, 'plain')]
+    small_doc = '{"Name": "Sum", "Inputs": [{"Name": "i1", "Values": [1, 2]}, {"Name": "i2", "Values": [3, 4]}]}'
+    large_cases = []
+    for k, (target, side, variant) in enumerate(plan):
+        if not big_models:
+            break
+        size = target + side * rng.randint(1, 48)
+        cs = g.large(big_models[k % len(big_models)], size, 'large-' + variant)
+        cs['doc_bytes'] = len(cs['text'])
+        if variant == 'trailing-ws':
+            # the document ends before the boundary, the stream goes on past it
+            cs['text'] += ''.join(rng.choice(' \n\t\r') for _ in range(rng.randint(60, 400)))
+        elif variant == 'second-doc':
+            cs['text'] += '\n' + small_doc + '\n'
+        cs['stream_bytes'] = len(cs['text'])
+        cases.append(cs)
+        large_cases.append(cs)
     if have_owsingle:
         for cs in cases:
             if cs['split'] == 1 and rng.random() < 0.2:
                 cs['via'] = 'ow-single'
+    # one reader handed to RunSingleModelJSON twice: every call must write exactly one document, the first one the
+    # answer to the first request (what the second call sees is whatever the first decoder left unread)
+    reuse_cases = []
+    for _ in range(4 if quick else 40):
+        base = g.structured(by_name[rng.choice(['Sum', 'EmcDwc', 'ApplyScalingFactor', 'FixedPartition'])], force='full')
+        base['text'] += rng.choice(['\n', ' ', '']) + rng.choice([small_doc, base['text'], '{"Name": "Nope"}', 'garbage', ''])
+        base['via'] = 'reuse-reader'
+        base['kind'] = 'reuse-reader'
+        cases.append(base)
+        reuse_cases.append(base)
+    if big_models:
+        cs = g.large(big_models[-1], 64 * KiB + rng.randint(1, 500), 'reuse-reader')
+        cs['doc_bytes'] = len(cs['text'])
+        cs['text'] += '\n' + small_doc
+        cs['stream_bytes'] = len(cs['text'])
+        cs['via'] = 'reuse-reader'
+        cases.append(cs)
+        reuse_cases.append(cs)
+        large_cases.append(cs)
 
     exps = [expectation(cs, by_name) for cs in cases]
     lines = []
     index = []
     for cs, e in zip(cases, exps):
-        mode = 2 if cs.get('via') else cs['split']
+        mode = {'ow-single': 2, 'reuse-reader': 3 + cs['split']}.get(cs.get('via'), cs['split'])
         index.append(len(lines))
         lines.append('RUN %d %s' % (mode, b64(cs['text'])))
         if e['cls'] == 'run':
@@ -579,6 +659,11 @@ def main():
             # registered (dimensioned) one; only the property oracle applies (known finding table-never-dimensioned)
             cs['model_skipped'] = True
             mlines.append('JSV 0000000000000000')
+        elif cs.get('large') and sum(len(v) for _, v in cs['inputs'] if v) > 20000:
+            # the extracted model works on unary naturals / non-tail-recursive lists: requests of this size are judged
+            # by the property oracle (bit-exact direct run of the implementation) only
+            cs['model_skipped'] = 'large'
+            mlines.append('JSV 0000000000000000')
         elif cs['wild'] and any(abs(v) > 1e4 for _, v in cs['params']):
             # extracted kernels iterate over nat-sized buffers (Lag, GR4J unit hydrographs): keep the model run bounded
             cs['model_skipped'] = True
@@ -595,7 +680,7 @@ def main():
     debug = {'crashes': []}
     kernel_mismatch = []
     registry_models, nokernel_models = set(), set()
-    model_compared = model_skipped = model_skipped_wild = 0
+    model_compared = model_skipped = model_skipped_wild = model_skipped_large = 0
     nonfinite_leaves = {'s:NaN': 0, 's:+Inf': 0, 's:-Inf': 0}
 
     def bump(k):
@@ -623,15 +708,29 @@ def main():
         c.count(cs['text'], nontrivial=nontrivial)
         bump('class:' + e['cls'])
         bump('kind:' + cs['kind'])
-        answered = f['exit'] == '0' and f['docs'] == '1'
+        want_docs = 2 if cs.get('via') == 'reuse-reader' else 1      # one document per call of RunSingleModelJSON
+        answered = f['exit'] == '0' and f['docs'] == str(want_docs)
         doc = f['doc']
         ok = True
+        if cs.get('large'):
+            replay['request_bytes'] = len(cs['text'])
         # -- independent validity check of the raw bytes (strict parser, no NaN/Infinity literals)
         if answered:
             try:
                 def bad(x):
                     raise ValueError('non-JSON constant ' + x)
-                json.loads(base64.b64decode(f['raw']).decode('utf8'), parse_constant=bad)
+                rawtxt = base64.b64decode(f['raw']).decode('utf8')
+                dec = json.JSONDecoder(parse_constant=bad)
+                pos, ndoc = 0, 0
+                while True:
+                    while pos < len(rawtxt) and rawtxt[pos] in ' \t\r\n':
+                        pos += 1
+                    if pos >= len(rawtxt):
+                        break
+                    _, pos = dec.raw_decode(rawtxt, pos)
+                    ndoc += 1
+                if ndoc != want_docs:
+                    raise ValueError('%d documents, expected %d' % (ndoc, want_docs))
             except Exception as ex:
                 answered = False
                 replay['invalid_json'] = str(ex)
@@ -714,6 +813,9 @@ def main():
         bump('oracle-ok' if ok else 'oracle-fail')
         # -- correspondence with the extracted model
         t = ml.split()
+        if cs.get('model_skipped') == 'large':
+            model_skipped_large += 1
+            continue
         if cs.get('model_skipped'):
             model_skipped_wild += 1
             continue
@@ -895,7 +997,11 @@ def main():
         'structured: for each of the %d catalogued models (names and descriptions read from the running binary) requests with '
         'full / random subsets / supersets / shuffled / duplicated parameters and inputs, series lengths 0,1,2,7,40 with one '
         'series shorter or longer, null or absent Values, no inputs, supplied states, unknown / empty / absent model name, '
-        'overflow-driven NaN/+Inf/-Inf results, plus a small out-of-range parameter stream; each executed by '
+        'overflow-driven NaN/+Inf/-Inf results, plus a small out-of-range parameter stream, plus a large-request stream (request texts of '
+        'exactly chosen sizes just below / at / above 64 KiB, 1 MiB, 4 MiB -- thorough: further sizes up to 16 MiB+ -- made of long '
+        'full-precision series for models with 1, 2, 5 and 8 inputs, also followed by trailing whitespace or a second document; '
+        'those above 20000 values are judged by the bit-exact direct run only, not by the extracted model), plus one stream handed '
+        'to RunSingleModelJSON twice (one document per call required); each executed by '
         'sim.RunSingleModelJSON in its own process (a share through the real ow-single binary) with both splitOutputs settings and '
         'checked against the property (one valid document, exit 0, log entries, bit-equal to a direct run, non-finite strings) and '
         'against the extracted Coq run_single; JSA: owjs.JsonSafeArray on ARange views reshaped to 1-4 dims with 0-2 '
@@ -908,6 +1014,12 @@ def main():
                         'model_run_single_compared': model_compared,
                         'registered_kernel_differs_from_direct_run_other_component': kernel_mismatch[:10],
                         'registered_kernel_differs_count': len(kernel_mismatch), 'model_run_single_skipped_no_kernel': model_skipped, 'model_run_single_skipped_huge_parameter': model_skipped_wild,
+                        'large_request_cases': len(large_cases), 'large_request_stream_bytes': sorted(cs['stream_bytes'] for cs in large_cases),
+                        'large_request_max_bytes': max([cs['stream_bytes'] for cs in large_cases] or [0]),
+                        'large_request_models': sorted({cs['model'] for cs in large_cases}),
+                        'large_request_variants': sorted({cs['kind'] for cs in large_cases}),
+                        'large_requests_judged_by_direct_run_only_model_skipped': model_skipped_large,
+                        'reader_reuse_cases_two_calls_one_stream': len(reuse_cases),
                         'models_with_registered_kernel': sorted(x for x in registry_models if x),
                         'models_without_registered_kernel': sorted(x for x in nokernel_models if x),
                         'nonfinite_leaves_seen': nonfinite_leaves, 'jsa_cases': len(jcases), 'jsa_impl_panics_out_of_range_shift': jsa_panics,
